@@ -856,7 +856,10 @@ func VHarness_C10_TanLargeRecord() {
 // the compaction point - starts a new logical log; everything saved afterwards
 // must come back, also at indexes the old log had already compacted, before
 // and after reopen.  (Regular mode; multiplexed mode: finding F6.)
-//vcheck: reach=wiped-by-remove,wiped-by-import,below-old-compaction,reopened,done workers=16 steps=3000000
+// Quick tier only: with the thorough tier's larger menus of file-size limits and
+// first saves this harness did not finish within 25 minutes on 6 cores, so it is
+// not part of the thorough command (the quick bounds are what is claimed).
+//vcheck: reach=wiped-by-remove,wiped-by-import,below-old-compaction,reopened,done workers=16 steps=3000000 tier=quick
 func VHarness_C09_TanCompactWipeReuse() {
 	env := vNewTanEnv()
 	l, err := env.open()
